@@ -2,7 +2,7 @@
 # lib/try_mutant_scratch.sh <ID> <n> "<checks>" [tier] [skipdemo] : like try_mutant.sh but against a private
 # copy of /repo and /verif under /tmp/sx (so that /repo is never touched while other runs use it)
 ID=$1; N=$2; CHECKS=$3; TIER=${4:-quick}
-WT=/tmp/mw_${ID}_${N}; OUT=${WT}_out; SX=/tmp/sx
+WT=/tmp/mw_${ID}_${N}; OUT=${WT}_out; SX=${SX:-/tmp/sx}
 mkdir -p $SX
 rsync -a --delete --exclude target --exclude .git /repo/ $SX/repo/
 rsync -a --delete --exclude harness/target --exclude work --exclude .git --exclude evidence /verif/ $SX/verif/
